@@ -76,6 +76,10 @@ def specs():
     for kt in KAFKA_TYPES:
         if kt not in NULLABLE_KT and kt != "records":
             out.append({"kt": kt, "flexible": True, "nullable": True, "array": False, "tagged": True, "default": True, "convention": True})
+    # nullable AND tagged with a default that is not null (upstream: a nullable field whose "default" is a value): the
+    # null form on the wire means null, not "default"
+    for kt in ("string", "bytes"):
+        out.append({"kt": kt, "flexible": True, "nullable": True, "array": False, "tagged": True, "default": True, "nonnull_default": True})
     # a tagged struct whose own members are tagged (tagged value encoded inside a tagged value; no shipped class nests them)
     out.append({"nested_tagged": True, "flexible": True})
     # request-header client_id rule is covered on the real header classes by the main exploration
@@ -122,7 +126,9 @@ def make(spec):
         anns["lead"] = i8
         ns["lead"] = dataclasses.field(metadata={"kafka_type": "int8"})
         anns["value"] = ann
-        if spec["nullable"]:
+        if spec["nullable"] and spec.get("nonnull_default"):
+            ns["value"] = dataclasses.field(metadata=md, default=zero_value(spec["kt"]))
+        elif spec["nullable"]:
             ns["value"] = dataclasses.field(metadata=md, default=None)
         elif spec.get("default"):
             ns["value"] = dataclasses.field(metadata=md, default=zero_value(spec["kt"]))
